@@ -219,9 +219,27 @@ pub fn ball_pivot_with_centers_2d(
 
             for pi in circles[working_index].intersections_with(&circles[*ni]) {
                 let di = pi - points[working_index];
-                let angle = directed_angle(&direction, &di, pivot_direction);
+                let mut angle = directed_angle(&direction, &di, pivot_direction);
+
+                // An angle of (almost) a full turn is an angle of zero lost to round-off: the
+                // neighbor is on the ball where it is now
+                if angle > 2.0 * PI - 1e-9 {
+                    angle = 0.0;
+                }
+
+                // A neighbor that is already on the ball, or reaches it after a vanishing rotation,
+                // is the next contact only if the ball would otherwise roll over it, i.e. if it
+                // lies ahead of the working point in the direction of travel. (Skipping every
+                // such neighbor let the ball swallow a third point lying on it.)
                 if angle < 1e-6 {
-                    continue;
+                    let center = points[working_index] + direction * radius;
+                    let travel = match pivot_direction {
+                        AngleDir::Ccw => Vector2::new(-direction.y, direction.x),
+                        AngleDir::Cw => Vector2::new(direction.y, -direction.x),
+                    };
+                    if (points[*ni] - center).dot(&travel) <= 0.0 {
+                        continue;
+                    }
                 }
 
                 let pivot = PivotPoint::new(*ni, pi, angle);
